@@ -1,8 +1,9 @@
 (** C16: a failing resolver fails the whole query; clients only see sanitised errors.
     Statements only; proofs are in Gql/ProofsSched.v, Gql/ProofsErr.v. *)
 From Coq Require Import List String Bool Arith Permutation ZArith.
-From Thunder Require Import Lib.Json Gql.Types Gql.Value Gql.Query Gql.Ref Gql.Exec Gql.Check Gql.Envelope
-  Gql.ProofsSched Gql.ProofsErr Gql.ProofsRef Gql.ProofsMain Gql.ProofsEnt Gql.ProofsTop Gql.ProofsFail Gql.ProofsFailMain.
+From Thunder Require Import Lib.Json Gql.Types Gql.Value Gql.Query Gql.Ref Gql.Exec Gql.Check Gql.Envelope Gql.Socket
+  Gql.ProofsSched Gql.ProofsErr Gql.ProofsRef Gql.ProofsMain Gql.ProofsEnt Gql.ProofsTop Gql.ProofsFail Gql.ProofsFailMain
+  Gql.ProofsSocket.
 Import ListNotations.
 Open Scope string_scope.
 Open Scope list_scope.
@@ -100,6 +101,94 @@ Theorem failing_subscription_reported_once_then_closed : forall id e,
   subscribe_initial id (RErr e) = [WError id (sanitize e); WClosed id].
 Proof. exact ProofsErr.subscribe_initial_error. Qed.
 Print Assumptions failing_subscription_reported_once_then_closed.
+
+(** * The websocket connection as a whole (Gql/Socket.v: handle, handleSubscribe, handleMutate,
+    closeSubscription, the serve loop's error envelope; one inbound envelope = one step).
+
+    (iv) over every script of inbound envelopes, from every connection state: a text other than the
+    generic message and thunder's own client messages appears in an error envelope only if it is the
+    SanitizedError() text of an error of the script that IS a SanitizedError - whether the error came
+    out of Parse / PrepareQuery or out of a subscription's or a mutation's computation. *)
+Theorem only_sanitized_texts_reach_the_socket : forall ms c id s,
+  In (CError id (EText s)) (snd (serve_all c ms)) ->
+  exists e, In e (flat_map msg_errs ms) /\ safe e = true /\ e_text e = s.
+Proof. exact ProofsSocket.only_sanitized_texts_reach_the_socket. Qed.
+Print Assumptions only_sanitized_texts_reach_the_socket.
+
+(** ... and an error that is not a SanitizedError goes out as the generic message, for a subscription
+    and for a mutation alike. *)
+Theorem unsafe_error_is_sent_as_generic : forall c id e,
+  safe (pe_err e) = false -> live c id = false ->
+  (List.length (c_subs c) < c_max c ->
+   snd (serve c (MSubscribe id (FRuns (RErr e)))) = [CSub id; CError id EGeneric; CUnsub id]) /\
+  snd (serve c (MMutate id (FRuns (RErr e)))) = [CSub id; CError id EGeneric; CUnsub id].
+Proof. exact ProofsSocket.unsafe_error_is_sent_as_generic. Qed.
+Print Assumptions unsafe_error_is_sent_as_generic.
+
+(** An initially failing subscription, in any connection state that accepts it: announced to the
+    logger, exactly one error envelope, its end logged - and the connection is what it was before, so
+    the subscription is gone and its id is free again. *)
+Theorem failing_subscription_once_then_closed : forall c id e,
+  live c id = false -> List.length (c_subs c) < c_max c ->
+  serve c (MSubscribe id (FRuns (RErr e))) = (c, [CSub id; CError id (san e); CUnsub id]).
+Proof. exact ProofsSocket.failing_subscription_once_then_closed. Qed.
+Print Assumptions failing_subscription_once_then_closed.
+
+(** (i) and (iv) composed, executor and connection: a subscription to a query some needed resolver of
+    which fails, executed under any schedule and any assignment of execution modes, is answered by one
+    error envelope whose message is the sanitised message of one of the needed failures - the generic
+    message if that failure is not client-safe - and is closed. *)
+Theorem failing_query_over_the_socket : forall S fuel rf q root sched r c id,
+  needed_failures S fuel q root <> [] -> good (needed_failures S fuel q root) ->
+  executes S fuel rf sched q root r ->
+  live c id = false -> List.length (c_subs c) < c_max c ->
+  exists f, In f (needed_failures S fuel q root) /\
+    serve c (MSubscribe id (FRuns r)) = (c, [CSub id; CError id (san f); CUnsub id]) /\
+    (safe (pe_err f) = false -> san f = EGeneric).
+Proof. exact ProofsSocket.failing_query_over_the_socket. Qed.
+Print Assumptions failing_query_over_the_socket.
+
+(** What handle refuses (malformed message, duplicate id, too many subscriptions, a query Parse or
+    PrepareQuery rejects, an unknown type) leaves the connection as it was and is not announced to the
+    SubscriptionLogger; the serve loop answers it with one error envelope. *)
+Theorem refusal_changes_nothing : forall c m c' evs h,
+  handle c m = (c', evs, Some h) -> c' = c /\ evs = [].
+Proof. exact ProofsSocket.handle_refusal_changes_nothing. Qed.
+Print Assumptions refusal_changes_nothing.
+
+(** Over every script: never more live subscriptions than WithMaxSubscriptions allows, no id twice. *)
+Theorem live_subscriptions_bounded : forall ms c,
+  conn_wf c -> conn_wf (fst (serve_all c ms)) /\ c_max (fst (serve_all c ms)) = c_max c.
+Proof. exact ProofsSocket.live_subscriptions_bounded. Qed.
+Print Assumptions live_subscriptions_bounded.
+
+(** Over every script on a fresh connection, closed at the end: for every id the SubscriptionLogger
+    hears as many Unsubscribe as Subscribe calls ("reported ... and then closed" for every way a
+    subscription can end: its own failure, a mutation's completion, unsubscribe, the socket's end). *)
+Theorem every_subscription_ends_in_the_log : forall ms c id,
+  c_subs c = [] ->
+  let r := serve_all c ms in
+  count_ev (is_sub id) (snd r) = count_ev (is_unsub id) (snd r ++ snd (close_all (fst r))).
+Proof. exact ProofsSocket.every_subscription_ends_in_the_log. Qed.
+Print Assumptions every_subscription_ends_in_the_log.
+
+(** A script that exercises the branches: a failing subscription (unsafe, then safe), the same id
+    reused by a live one, a duplicate, one too many, a failing mutation, an unsubscribe. *)
+Example socket_script_non_trivial :
+  let unsafe := RErr (nest [PKey "a"; PIdx 1] (mk_err EPlain "secret")) in
+  let safe_ := RErr (nest [PKey "a"] (mk_err EWrapped "shown")) in
+  serve_all (mk_conn [] 1)
+    [MSubscribe "s" (FRuns unsafe); MSubscribe "s" (FRuns safe_); MSubscribe "s" (FRuns (ROk JNull));
+     MSubscribe "s" (FRuns (ROk JNull)); MSubscribe "t" (FRuns (ROk JNull)); MMutate "m" (FRuns unsafe);
+     MSubscribe "u" (FRejected (mk_err EClient "unknown field")); MUnsubscribe "s"; MUnknown "x"]
+  = (mk_conn [] 1,
+     [CSub "s"; CError "s" EGeneric; CUnsub "s";
+      CSub "s"; CError "s" (EText "shown"); CUnsub "s";
+      CSub "s"; CUpdate "s";
+      CError "s" EOwn; CError "t" EOwn;
+      CSub "m"; CError "m" EGeneric; CUnsub "m";
+      CError "u" EOwn; CUnsub "s"; CError "x" EOwn]).
+Proof. vm_compute. reflexivity. Qed.
 
 Definition ex16_schema : schema :=
   mk_schema
